@@ -46,7 +46,16 @@ def correspond(ctx):
 
 
 def gen_seg(rng):
-    fam = rng.choice(['random', 'random', 'line', 'cusp', 'loop', 'retrace', 'smooth', 'quad', 'int', 'smallint', 'closedseg', 'uniform-moved'])
+    fam = rng.choice(['random', 'random', 'line', 'cusp', 'loop', 'retrace', 'smooth', 'quad', 'int', 'smallint', 'closedseg', 'uniform-moved', 'even-three'])
+    if fam == 'even-three':
+        # three consecutive control points collinear and EXACTLY equally spaced (the hodograph's middle control point equals one of its ends), or both handles
+        # retracted onto the same end
+        a = P(float(rng.randint(-100, 100)), float(rng.randint(-100, 100))); d = P(float(rng.randint(-40, 40)), float(rng.randint(-40, 40)))
+        if d.x == 0 and d.y == 0: d = P(10.0, 5.0)
+        far = P(float(rng.randint(-150, 150)), float(rng.randint(-150, 150)))
+        k_ = rng.randrange(3)
+        ps = [a, a + d, a + d * 2, far] if k_ == 0 else [far, a, a + d, a + d * 2] if k_ == 1 else [a, P(a.x, a.y), P(a.x, a.y), far]
+        return fam, CubicBezier(*ps)
     r = lambda: P(rng.uniform(-300, 300), rng.uniform(-300, 300))
     if fam == 'line':
         if rng.random() < 0.4:
